@@ -1,6 +1,8 @@
 """C03 -- VHDX (fixed / dynamic) read correctness.   Shape A (input-space product) over virtual sparse files."""
 from __future__ import annotations
 
+import itertools
+
 from mc import bootstrap
 from mc.builders import vhdx as B
 from mc.diskcheck import recheck_after_failure, compare_reads, compare_sector_reads, sliced, window_models
@@ -89,6 +91,10 @@ def _geoms(tier):
     # one request over more than 128 MiB of a single absent 256 MiB block
     q.append(dict(bs=256 * MB, sec=512, W=3, cut=0, at=0, total=None, seqs=[7, 6], regions=["meta", "bat"], meta_mb=2, bat_mb=3,
                   alpha="small", longrun=True))
+    # hundreds of back-to-back sequential requests (starting off a block multiple, fixed and varying sizes) over present blocks
+    # that are not stored in guest order, then the same ranges again at random
+    q.append(dict(bs=MB, sec=512, W=4, cut=0, at=0, total=None, seqs=[7, 6], regions=["meta", "bat"], meta_mb=2, bat_mb=3,
+                  alpha="small", longrun=True, walk=True))
     # single requests of 66 .. 128 MiB out of present 128 MiB blocks that are not stored in guest order
     q.append(dict(bs=128 * MB, sec=512, W=3, cut=0, at=0, total=None, seqs=[7, 6], regions=["meta", "bat"], meta_mb=2, bat_mb=3,
                   alpha="small", longrun=True, longdata=True))
@@ -177,6 +183,22 @@ def run_shard(shard, ctx):
     i, k = shard["slice"]
     W = g["W"]
     alpha = ALPHA_SMALL if g.get("alpha") == "small" else ALPHA
+    if g.get("walk"):
+        import itertools
+
+        walks = []
+        for start, sizes in ((40 << 10, [8192]), (0x33000, [4096, 12288, 8192, 512]), (512 * 3, [24 * 512]), (0, [65536 + 512])):
+            pos, reqs, j = start, [], 0
+            while pos + sizes[j % len(sizes)] <= 4 * MB and len(reqs) < 420:
+                reqs.append([pos, sizes[j % len(sizes)]])
+                pos += sizes[j % len(sizes)]
+                j += 1
+            walks.append(reqs + [reqs[(k * 37) % len(reqs)] for k in range(40)])
+        for n, (slots, reqs) in enumerate(itertools.product(([2, 0, 3, 1], [3, 2, 1, 0]), walks)):
+            if n % k == i:
+                sre = [[a // 512, max(1, c // 512)] for a, c in reqs]
+                run_case({"geom": g, "states": [DATA] * 4, "slots": slots, "requests": reqs, "sector_requests": sre}, ctx)
+        return
     if g.get("longdata"):
         for n, slots in enumerate(([0, 2, 1], [1, 0, 2], [2, 1, 0], [2, 0, 1])):
             if n % k == i:
